@@ -304,6 +304,6 @@ def run(ctx, res):
     if n < 1:
         raise AnalysisBroken("process_data no longer maps its reader")
     res.require_min("O-INIT-RMW", 1)
-    res.require_min("T-EXH", 7)
+    res.require_min("T-EXH", 5)
     res.require_min("R-WINDOW", 8)
     res.require_min("PAIR", 1)
